@@ -13,6 +13,9 @@ RULES = {
     'BELIEF-CONSISTENT': 'if one method removes a member of a field under a membership guard, no other method removes from '
                          'that field with the raising form unguarded',
     'WEAK-DOWN': 'downstreams is a weak set and upstream code keeps no other strong reference to a downstream node',
+    'NONE-SENTINEL': 'an optional constructor argument whose absence is spelled None (and the field that stores it) is tested the same '
+                     'way everywhere: if one site asks `is None`, no other site asks for its truthiness (0, empty and False are '
+                     'values, not absence)',
     'STRONG-SINK': 'every Sink constructor reaches Sink.__init__ (registering in _global_sinks); Sink.destroy unregisters and '
                    'unlinks',
     'DESTROY-SUPER': 'every destroy() override reaches the base destroy() on every normal path',
@@ -412,3 +415,93 @@ def check_destroy_super(ctx, R, classes):
     R.ob('DESTROY-SUPER', ctx.construct(base), 'iterates-copy', bad is None and n > 0,
          'Stream.destroy mutates self.upstreams while iterating it (every second upstream would stay linked)',
          ctx.where(base, base.node.lineno), fmt_path(bad) if bad else None, n)
+
+
+def _sentinel_tests(node):
+    """(tested expression, 'identity' | 'truth', node) for every name / attribute used as a test or compared with None"""
+    for n in ast.walk(node):
+        tests = []
+        if isinstance(n, (ast.If, ast.While, ast.IfExp, ast.Assert)):
+            tests.append(n.test)
+        if isinstance(n, ast.comprehension):
+            tests.extend(n.ifs)
+        for t in tests:
+            stack = [t]
+            while stack:
+                e = stack.pop()
+                if isinstance(e, ast.BoolOp):
+                    stack.extend(e.values)
+                elif isinstance(e, ast.UnaryOp) and isinstance(e.op, ast.Not):
+                    stack.append(e.operand)
+                elif isinstance(e, ast.Compare) and len(e.ops) == 1 and isinstance(e.ops[0], (ast.Is, ast.IsNot)) \
+                        and isinstance(e.comparators[0], ast.Constant) and e.comparators[0].value is None:
+                    yield e.left, 'identity', e
+                elif isinstance(e, (ast.Name, ast.Attribute)):
+                    yield e, 'truth', e
+
+
+def check_none_sentinel(ctx, R, classes):
+    """contradiction rule (beliefs about one value must agree): see RULES['NONE-SENTINEL']"""
+    for c in classes:
+        init = c.methods.get('__init__')
+        if init is None:
+            continue
+        a = init.node.args
+        pos = a.posonlyargs + a.args
+        defaults = dict(zip([p.arg for p in pos[len(pos) - len(a.defaults):]], a.defaults))
+        for k, d in zip(a.kwonlyargs, a.kw_defaults):
+            if d is not None:
+                defaults[k.arg] = d
+        # optional values whose absence is None: parameters defaulting to None, and locals taken from **kwargs with a None
+        # default (emit_on = kwargs.pop('emit_on', None)); each is followed up to its first re-binding
+        INF = 10 ** 9
+        defined = {p: 0 for p, d in defaults.items() if isinstance(d, ast.Constant) and d.value is None}
+        assigns = {}
+        for n in own_nodes(init.node):
+            if isinstance(n, (ast.Assign, ast.AugAssign, ast.For, ast.AnnAssign)):
+                tg = n.targets if isinstance(n, ast.Assign) else [n.target]
+                for t in tg:
+                    for x in ast.walk(t):
+                        if isinstance(x, ast.Name):
+                            assigns.setdefault(x.id, []).append(n)
+        for nm, lst in assigns.items():
+            first = sorted(lst, key=lambda n: n.lineno)[0]
+            v = getattr(first, 'value', None)
+            if nm not in defined and isinstance(first, ast.Assign) and isinstance(v, ast.Call) and isinstance(v.func, ast.Attribute) \
+                    and v.func.attr in ('pop', 'get') and len(v.args) == 2 and isinstance(v.args[1], ast.Constant) \
+                    and v.args[1].value is None:
+                defined[nm] = first.lineno
+        rebind = {}
+        for nm, dl in defined.items():
+            later = [n.lineno for n in assigns.get(nm, []) if n.lineno > dl]
+            rebind[nm] = min(later) if later else INF
+        none_params = set(defined)
+        fields = {}
+        for n in own_nodes(init.node):
+            if isinstance(n, ast.Assign) and isinstance(n.value, ast.Name) and n.value.id in none_params \
+                    and defined[n.value.id] < n.lineno <= rebind[n.value.id]:
+                for t in n.targets:
+                    if self_field(t) and isinstance(t, ast.Attribute):
+                        fields[self_field(t)] = n.value.id
+        if not none_params:
+            continue
+        styles = {}
+        for mname, fn in c.methods.items():
+            for e, style, node in _sentinel_tests(fn.node):
+                key = None
+                if isinstance(e, ast.Name) and mname == '__init__' and e.id in none_params \
+                        and defined[e.id] < node.lineno <= rebind[e.id]:
+                    key = e.id
+                elif isinstance(e, ast.Attribute) and self_field(e) in fields:
+                    key = fields[self_field(e)]
+                if key:
+                    styles.setdefault(key, []).append((style, fn, node))
+        for key, uses in sorted(styles.items()):
+            ident = [u for u in uses if u[0] == 'identity']
+            truth = [u for u in uses if u[0] == 'truth']
+            if not ident:
+                continue            # consistently truthiness: empty and absent are deliberately the same
+            R.ob('NONE-SENTINEL', c.fq.replace(':', '.'), key, not truth,
+                 'the optional argument `%s` is tested with `is None` in %s but for truthiness in %s: a falsy value (0, empty) '
+                 'is treated as absent there' % (key, ident[0][1].qual, ', '.join(sorted({u[1].qual for u in truth}))),
+                 ctx.where(truth[0][1], truth[0][2].lineno) if truth else None)
